@@ -55,7 +55,7 @@ func (w *World) collectUUIDs(api string, mk func() *sod.Search, viaAssign bool) 
 	return uuidsOf(recs), recs, true
 }
 
-func (w *World) checkOrder(chain []Query) {
+func (w *World) checkOrder(chain []Query, pool []Query) {
 	last := chain[len(chain)-1]
 	p := last.Path
 	desc := chainString(chain)
@@ -126,6 +126,33 @@ func (w *World) checkOrder(chain []Query) {
 		return ""
 	}
 	fullKeys := keysOf(recs)
+	// a search value that was refined further (And / Or derive new searches) is still the search it
+	// was: same matches, same order
+	if len(pool) > 0 {
+		refined := ""
+		got, grecs, ok := w.collectUUIDs("Search.kept.Collect", func() *sod.Search {
+			s := mk()
+			for i, n := 0, 1+w.rng.Intn(2); i < n; i++ {
+				q := pool[w.rng.Intn(len(pool))]
+				if w.rng.P(0.7) {
+					s.And(q.Path, q.Op, q.Probe).Len()
+					refined += " .And(" + q.String() + ")"
+				} else {
+					s.Or(q.Path, q.Op, q.Probe).Len()
+					refined += " .Or(" + q.String() + ")"
+				}
+			}
+			return s
+		}, false)
+		if !ok {
+			return
+		}
+		if why := prefixOK(got, grecs, fullKeys, math.MaxUint64); why != "" {
+			w.fail("refined-parent-changed", api, "-", fmt.Sprintf("%s collected after deriving%s from it: %s", desc, refined, why))
+			return
+		}
+		stats.Count("kept_search_checks", 1)
+	}
 	// Reverse
 	rev, rrecs, ok := w.collectUUIDs("Search.Reverse.Collect", func() *sod.Search { return mk().Reverse() }, false)
 	if !ok {
@@ -288,7 +315,7 @@ func runC13(k int, rng *Rng) CaseResult {
 						chain = []Query{all[rng.Intn(len(all))], all[rng.Intn(len(all))], q}
 					}
 				}
-				w.checkOrder(chain)
+				w.checkOrder(chain, all)
 				nq++
 			}
 		}
